@@ -65,6 +65,7 @@ def check(ctx):
 
     # -- 2. R3 token linearity
     linear_node(ctx, P, node_views, iters)
+    no_touch_after_handover(ctx, P, node_views, iters)
     linear_arrival(ctx, P, arr_views, iters)
 
     # -- every accept call site is covered by one of the roots above
@@ -120,6 +121,38 @@ def _reachable_helper(P, ci, fn, allowed):
 
 def _tok_events(e):
     return e.kind == "call" and (e.d["meth"] == "accept" or (listop(e) and listop(e)[2] == "individuals"))
+
+
+def no_touch_after_handover(ctx, P, views, iters):
+    """once the customer has been handed to the next node's accept() it belongs to that node: the releasing node must not write its attributes any more
+    (the next node has already dispatched on them -- a late `server = False`, `is_blocked = False`, date reset ... is either lost or corrupts the new visit)"""
+    ob = ctx.ob("R3.after", "release/renege: no attribute of the customer is written by the old node after the hand-over accept()")
+    done = set()
+    for view in views:
+        for root in ("release", "renege"):
+            cls, fn = view.method(root)
+
+            def keep(e):
+                if e.kind == "call":
+                    return e.d["meth"] == "accept" and e.d.get("recv") != "self" and not e.d.get("selfcall")
+                return e.kind in ("assign", "aug") and not e.d.get("local")
+            w = Walker(P, view, keep=keep, inline=lambda ev: ev.d["meth"] not in ("release_blocked_individual", "release"), loop_iters=iters)
+            n = 0
+            for st in w.paths_of(cls, fn):
+                if st.status == "raise":
+                    continue
+                handed = set()
+                for e in st.events:
+                    if e.kind == "call":
+                        handed.add((e.d["args"] + ["?"])[0])
+                        n += 1
+                    elif any(e.d["target"].startswith(t + ".") for t in handed):
+                        if (cls.name, root, e.d["target"]) not in done:
+                            done.add((cls.name, root, e.d["target"]))
+                            ctx.violation(ob, "R3.linearity", "%s.%s" % (cls.name, root), e.text, "written-after-hand-over",
+                                          "`%s` is written after the customer was handed to the next node: that node has already admitted it and decided about its service on "
+                                          "the old value" % e.d["target"], e.where, witness(st))
+            ob.ok("%s.%s" % (view.name, root), "%d hand-over(s)" % n)
 
 
 def linear_node(ctx, P, views, iters):
